@@ -90,6 +90,10 @@ fn placements() -> Vec<Placement> {
     for re in [16u16, 32, 40, 512] {
         let mut g = scen::g_v16a();
         g.root_entries = re;
+        if re == 32 {
+            // blank label in the boot sector: get_root_volume_label searches the root directory
+            g.label = *b"           ";
+        }
         // HOLDER occupies one root slot; pad so that the sequence ends exactly at / near the end of the root region
         // (40 entries: the sequence lies in the trailing, partially used root block)
         let pad = if re == 16 { 9 } else if re == 32 { 12 } else if re == 40 { 32 } else { 13 };
@@ -103,6 +107,9 @@ fn placements() -> Vec<Placement> {
     for rc in [2u32, 5] {
         let mut g = scen::g_v32a();
         g.root_cluster = rc;
+        if rc == 5 {
+            g.label = *b"           ";
+        }
         out.push(build(&format!("root32-at-{}", rc), g, false, &[], 12));
     }
     out
@@ -227,6 +234,29 @@ pub fn check_dir(img: &Image, vol: &Vol, loc: DirLoc, path: &[&str], names: &[St
             vm.close_dir(d).ok();
             d = n;
         }
+        if path.is_empty() {
+            // the volume label: the boot sector's if it has one, otherwise the first label entry of the root directory
+            let bs = img2.rd(vol.lba);
+            let o = if vol.fat32 { 71 } else { 43 };
+            let trim = |b: &[u8]| -> Vec<u8> {
+                let mut v = b.to_vec();
+                while v.last() == Some(&b' ') {
+                    v.pop();
+                }
+                v
+            };
+            let bpb = trim(&bs[o..o + 11]);
+            let want_label: Option<Vec<u8>> = if !bpb.is_empty() { Some(bpb) } else { want.iter().find(|e| e.attr == 0x08).map(|e| trim(&e.name)) };
+            let got_label = vm.get_root_volume_label(v).map_err(|e| format!("get_root_volume_label {:?}", map_err(&e)))?.map(|l| l.name().to_vec());
+            if got_label != want_label {
+                out.push(v6("label/wrong-volume-label", format!("get_root_volume_label returns {:?}, the medium says {:?}", got_label.map(|b| String::from_utf8_lossy(&b).to_string()), want_label.map(|b| String::from_utf8_lossy(&b).to_string())), inp.clone()));
+            }
+            if vm.close_dir(d).is_err() {
+                out.push(v6("label/closes-the-callers-directory", "the root directory handle opened before get_root_volume_label is no longer open".into(), inp.clone()));
+                return Ok(out);
+            }
+            d = vm.open_root_dir(v).map_err(|e| format!("open_root after label {:?}", map_err(&e)))?;
+        }
         let got = crate_list(&vm, d).map_err(|e| format!("iterate_dir: {}", e))?;
         if got.len() != want.len() {
             let kind = if got.len() > want.len() { "lists-more-than-live-entries" } else { "lists-fewer-than-live-entries" };
@@ -236,6 +266,24 @@ pub fn check_dir(img: &Image, vol: &Vol, loc: DirLoc, path: &[&str], names: &[St
         for (l, e) in got.iter().zip(want.iter()) {
             if let Err(m) = same_entry(l, e, vol.fat32) {
                 out.push(v6("listing/entry-fields-differ", m, inp.clone()));
+                return Ok(out);
+            }
+        }
+        // the long-name listing visits the same entries in the same order (whatever long names it attaches)
+        {
+            let mut store = [0u8; 128];
+            let mut lb = embedded_sdmmc::LfnBuffer::new(&mut store);
+            let mut got2: Vec<ListEnt> = Vec::new();
+            vm.iterate_dir_lfn(d, &mut lb, |de, _| got2.push(list_ent(de, None))).map_err(|e| format!("iterate_dir_lfn: {:?}", map_err(&e)))?;
+            if got2 != got {
+                let kind = if got2.len() > got.len() {
+                    "lists-more-than-live-entries"
+                } else if got2.len() < got.len() {
+                    "lists-fewer-than-live-entries"
+                } else {
+                    "entry-fields-differ"
+                };
+                out.push(v6(&format!("listing-lfn/{}", kind), format!("iterate_dir_lfn lists {:?}, live entries are {:?}", got2.iter().map(|l| refat::name_to_string(&l.name)).collect::<Vec<_>>(), want.iter().map(|e| e.name_str()).collect::<Vec<_>>()), inp.clone()));
                 return Ok(out);
             }
         }
@@ -319,6 +367,41 @@ pub fn check_dir(img: &Image, vol: &Vol, loc: DirLoc, path: &[&str], names: &[St
                         out.push(v6("open_dir/fails-for-listed-directory", format!("open_dir {:?} -> {:?}", name, map_err(&e)), inp.clone()));
                     }
                     let _ = is_dot;
+                }
+            }
+            // the same through Directory::change_dir, on a second handle to this directory
+            if let Ok(h2) = vm.open_dir(d, ".") {
+                let mut dw = h2.to_directory(&vm);
+                let r = dw.change_dir(name.as_str());
+                let mut now: Vec<[u8; 11]> = Vec::new();
+                let lr = dw.iterate_dir(|de| now.push(list_ent(de, None).name));
+                drop(dw);
+                let here: Vec<[u8; 11]> = got.iter().map(|l| l.name).collect();
+                match (r.is_ok(), expect_ok) {
+                    (true, false) => out.push(v6("change_dir/succeeds-for-a-name-that-is-no-directory", format!("change_dir {:?} succeeded", name), inp.clone())),
+                    (false, true) => out.push(v6("change_dir/fails-for-listed-directory", format!("change_dir {:?} failed", name), inp.clone())),
+                    (true, true) => {
+                        let target: DirLoc = if name == "." {
+                            loc
+                        } else {
+                            let c = first.unwrap().cluster;
+                            if c == 0 {
+                                refat::root_loc(vol)
+                            } else {
+                                DirLoc::Chain(c)
+                            }
+                        };
+                        let (ts, _, _) = refat::dir_slots(&img2, vol, &fat, target);
+                        let twant: Vec<[u8; 11]> = refat::live_entries(&ts, vol.fat32).iter().map(|e| e.name).collect();
+                        if lr.is_err() || now != twant {
+                            out.push(v6("change_dir/leads-to-a-different-directory", format!("after change_dir {:?} the handle lists {} entries, the designated directory has {}", name, now.len(), twant.len()), inp.clone()));
+                        }
+                    }
+                    (false, false) => {
+                        if lr.is_err() || now != here {
+                            out.push(v6("change_dir/failed-call-moved-the-handle", format!("after the refused change_dir {:?} the handle lists {} entries, its directory has {}", name, now.len(), here.len()), inp.clone()));
+                        }
+                    }
                 }
             }
         }
